@@ -502,6 +502,13 @@ func (m *MultExp) TokenLiteral() string {
 	return buf.String()
 }
 
+// MacroGuard は Env が任意で実装するインターフェースです。EQU 名の展開に入る前に EnterMacro が呼ばれ、
+// false が返れば展開しません (循環定義、または 1 文あたりの展開回数の上限超過)。
+type MacroGuard interface {
+	EnterMacro(name string) bool
+	LeaveMacro(name string)
+}
+
 //go:generate newc
 type ImmExp struct {
 	BaseExp
@@ -547,6 +554,13 @@ func (imm *ImmExp) Eval(env Env) (Exp, bool) {
 		// '$' でない場合は、マクロをチェックします
 		macroExp, ok := env.LookupMacro(identValue)
 		if ok {
+			// 循環した定義 (A EQU B+1 / B EQU A+1, A EQU [A] など) や際限なく膨らむ展開を、使用時点で止めます
+			if guard, isGuard := env.(MacroGuard); isGuard {
+				if !guard.EnterMacro(identValue) {
+					return imm, false // 展開しない (未解決の識別子として扱う)
+				}
+				defer guard.LeaveMacro(identValue)
+			}
 			// マクロ定義を再帰的に評価します
 			// マクロ自体が評価されることを確認します
 			evalMacroExp, reduced := macroExp.Eval(env)
